@@ -677,6 +677,14 @@ class SecopClient(ProxyClient):
                 event.set()
         except queue.Empty:
             pass
+        # requests queued after the shutdown marker: the tx thread is gone, nobody would release them
+        try:
+            while True:
+                entry = txq.get(block=False)
+                if entry:
+                    entry[1].set()
+        except queue.Empty:
+            pass
 
     def _init_descriptive_data(self, data):
         """rebuild descriptive data"""
